@@ -261,14 +261,11 @@ LAYERS = [
           min_nontrivial=400),
     Layer("ip-write-gen", run_write, strategy=write_cases, n={"quick": 1500, "thorough": 40000}, min_nontrivial=300),
 ]
+from props.ble_layers import C13_LAYERS as _BLE  # noqa: E402
+LAYERS += _BLE
 try:
-    from props import c13_coap
-    LAYERS += c13_coap.LAYERS
-except ImportError:
-    pass
-try:
-    from props import c13_ble
-    LAYERS += c13_ble.LAYERS
+    from props.coap_layers import C13_LAYERS as _COAP
+    LAYERS += _COAP
 except ImportError:
     pass
 
